@@ -1,5 +1,7 @@
 import Jap.Core.Links
+import Jap.Core.LinksTree
 import Jap.Lemmas.Links
+import Jap.Lemmas.LinksTree
 import Jap.Gen.LinksOrder
 /-!
 # C15 — A linked argument always equals the function of its sources (links applied on parse)
@@ -203,6 +205,68 @@ theorem C15_reparse_plain (E : Env) (p0 p : Parser) (reqs : List LinkReq) (h : A
   obtain ⟨_, _, _, _, hpl⟩ := hv l hl args hargs
   exact hpl hk
 
+
+/-! ## every source position, every item of a list of classes -/
+
+/-- The chain check looks at EVERY source position: an accepted `link_arguments` call has a target that is no source
+    of any earlier link, whatever its position in that link's tuple; none of its own sources, whatever the position,
+    is the target of an earlier link; its target is not among its own sources and not an earlier target.  Hence a
+    call whose target is the second, third, … source of an earlier link is refused. -/
+theorem C15_chain_check_all_sources (p : Parser) (srcs : List Key) (co : List Bool) (t : Key) (fn : Option Nat) :
+    (∀ p', addLink p srcs co t fn = .ok p' →
+      (∀ l ∈ p.links, ∀ s ∈ l.sources, s.key ≠ t) ∧ (∀ s ∈ srcs, ∀ l ∈ p.links, l.target ≠ s) ∧ t ∉ srcs ∧
+      (∀ l ∈ p.links, l.target ≠ t)) ∧
+    ((∃ l ∈ p.links, ∃ s ∈ l.sources, s.key = t) → ∀ p', addLink p srcs co t fn ≠ .ok p') ∧
+    ((∃ s ∈ srcs, ∃ l ∈ p.links, l.target = s) → ∀ p', addLink p srcs co t fn ≠ .ok p') := by
+  refine ⟨fun p' h => addLink_all_sources p p' srcs co t fn h, ?_, ?_⟩
+  · rintro ⟨l, hl, s, hs, e⟩ p' h
+    exact (addLink_all_sources p p' srcs co t fn h).1 l hl s hs e
+  · rintro ⟨s, hs, l, hl, e⟩ p' h
+    exact (addLink_all_sources p p' srcs co t fn h).2.1 s hs l hl e
+
+/-- List-of-classes targets: (1) `set_target_value` takes the list branch as soon as ANY item is a namespace with the
+    parameter, whatever the first item is, and then every such item receives the value while the other items are
+    untouched; (2) in every successfully parsed configuration every item of the list that has the parameter holds
+    the value computed from the final sources. -/
+theorem C15_list_target_all_items (E : Env) (p0 p : Parser) (reqs : List LinkReq) (h : Accepted p0 reqs p)
+    (hn : nonNested p.links = true) (l : Link) (hl : l ∈ p.links) (n : Nat) (hk : l.kind = .initArg n) :
+    (∀ (v : V) (cfg : KV) (items : List V), getK (l.target.take n) cfg = some (.lst items) →
+      (∃ kvs, V.ns kvs ∈ items ∧ (getK (l.target.drop n) kvs).isSome = true) →
+      getK (l.target.take n) (setTargetValue l v cfg) = some (.lst (items.map (itemSet (l.target.drop n) v)))) ∧
+    (∀ (inputs : List Input) (cfg : KV) (items : List V) (args : List V), parse E p inputs = .ok cfg →
+      getK (l.target.take n) cfg = some (.lst items) → argsOf cfg l.sources = some args →
+      ∃ v, linkValue E l args = .ok v ∧
+        ∀ kvs, V.ns kvs ∈ items → ∀ w, getK (l.target.drop n) kvs = some w → w = v) := by
+  refine ⟨fun v cfg items hg hany => setTargetValue_list l n v cfg items hk hg hany, ?_⟩
+  intro inputs cfg items args hp hg hargs
+  obtain ⟨v, hv, hw, _⟩ := C15_invariant E p0 p reqs h hn inputs cfg hp l hl args hargs
+  refine ⟨v, hv, fun kvs hm w hgw => hw w ?_⟩
+  rw [targetValues_list l n cfg items hk hg]
+  exact mem_itemValues _ kvs w items hm hgw
+
+/-! ## subcommands: the links of the selected sub-parser, at every depth -/
+
+/-- a node of a parser tree is well-formed as far as its own links go when they were registered by accepted calls
+    and no key is nested -/
+theorem C15_wf_node (p0 p : Parser) (reqs : List LinkReq) (h : Accepted p0 reqs p) (hn : nonNested p.links = true) :
+    SrcIndep p.links ∧ TgtIndep p.links ∧ ∀ l ∈ p.links, WfLink l :=
+  ⟨(indep_of_unchained p.links h.inv.noChain h.inv.noSelf hn).1,
+   (indep_of_unchained p.links h.inv.noChain h.inv.noSelf hn).2, h.inv.wf⟩
+
+/-- `apply_parsing_links` as written (guard 1: skip / print_config; the recursion into the parser of the selected
+    subcommand; guard 3: no `_links_group`; the loop) establishes the invariant for the parser and, recursively, for
+    the parser of the subcommand that the returned configuration selects, at every depth.  `inputs` is arbitrary:
+    the values of a sub-parser may come from argv after the subcommand token, from a parent-level config or object
+    (keys `fit.x`), from the environment or from defaults. -/
+theorem C15_invariant_subcommands (E : Env) (N : Names) (hN : NamesOK N) (t : PTree) (hw : WfTree t)
+    (inputs : List Input) (cfg : KV) (hp : parseT E N t inputs = .ok cfg) : HoldsTree E N t cfg := by
+  obtain ⟨c0, hc⟩ := parseT_ok E N t inputs cfg hp
+  exact applyTree_holds E N hN t c0 cfg hc hw
+
+/-- guard 1 comes first: nothing is done at any level while a config file is being loaded / for `--print_config` -/
+theorem C15_guard_off (E : Env) (N : Names) (t : PTree) (cfg : KV) : applyTree E N true t cfg = .ok cfg :=
+  applyTree_off E N t cfg
+
 /-! ## witnesses: the full statements fail (open findings), the hypotheses are satisfiable -/
 
 /-- compute functions of the witnesses: 0 = a + b, 1 = sum of the integer fields of a group, 2 = 2 * a -/
@@ -351,5 +415,60 @@ theorem C15_code_initial_checks :
      "Target \"\" not allowed since it is one of the sources of the link.",
      "Target \"\" not allowed since it is the source of another link."].all (initialChecks.contains ·) = true := by
   decide
+
+/-! ### subcommands -/
+
+def Nw : Names :=
+  { nameOf := fun v => match v with | .dct [(k, _)] => some k | _ => .none
+    nameVal := fun k => .dct [(k, .none)] }
+
+theorem Nw_ok : NamesOK Nw := ⟨rfl, fun _ => rfl, fun _ => rfl⟩
+
+/-- the sub-parser `fit` with the link `x --> y` (2 * x) -/
+def subFit : Parser := parserOf { actions := [arg (key "x"), arg (key "y")], required := [], links := [] }
+  [⟨[key "x"], [], key "y", some 2⟩]
+
+/-- a top parser WITHOUT `_links_group` (guard 3 returns) and a top parser with its own link `a --> b` -/
+def treeNoGroup : PTree := .node { actions := [arg (key "top")], required := [], links := [] } false (sk "subcommand") true
+  [(sk "fit", .node subFit true (sk "subcommand") false [])]
+def treeBoth : PTree :=
+  .node (parserOf { actions := [arg (key "a"), arg (key "b")], required := [], links := [] } [⟨[key "a"], [], key "b", .none⟩])
+    true (sk "subcommand") true [(sk "other", .node subFit true (sk "subcommand") false []), (sk "fit", .node subFit true (sk "subcommand") false [])]
+
+/-- the recursion comes BEFORE the `_links_group` return: the links of `fit` are applied although the top parser has
+    none; the section only (no `subcommand` key) selects it and the dest is stored; a value given for `fit.y` by a
+    parent-level config is overridden, its option after the token is refused -/
+example :
+    parseT Ew Nw treeNoGroup [⟨.dflt, key "top", .atom 0⟩, ⟨.dflt, key2 "fit" "x", .atom 1⟩, ⟨.config, key2 "fit" "y", .atom 9⟩,
+        ⟨.argv, key2 "fit" "x", .atom 4⟩]
+      = .ok [(sk "top", .atom 0), (sk "fit", .ns [(sk "x", .atom 4), (sk "y", .atom 8)]), (sk "subcommand", .dct [(sk "fit", .none)])] ∧
+    parseT Ew Nw treeNoGroup [⟨.argv, key2 "fit" "y", .atom 4⟩] = .error .linkCall ∧
+    parseT Ew Nw treeBoth [⟨.dflt, key "a", .atom 3⟩, ⟨.object, key "subcommand", .dct [(sk "fit", .none)]⟩,
+        ⟨.env, key2 "fit" "x", .atom 5⟩, ⟨.config, key2 "other" "x", .atom 1⟩]
+      = .ok [(sk "a", .atom 3), (sk "subcommand", .dct [(sk "fit", .none)]), (sk "fit", .ns [(sk "x", .atom 5), (sk "y", .atom 10)]),
+             (sk "b", .atom 3)] :=
+  ⟨rfl, rfl, rfl⟩
+
+/-- the hypotheses of `C15_invariant_subcommands` are satisfiable by these trees -/
+example : WfTree treeNoGroup ∧ WfTree treeBoth :=
+  ⟨wfTreeB_sound _ (by decide), wfTreeB_sound _ (by decide)⟩
+
+/-- a list of classes whose FIRST item has no `dim`: the second item receives the value all the same -/
+example :
+    setTargetValue lOpts (.atom 7)
+      [(sk "opts", .lst [.ns [(sk "init_args", .ns [(sk "k", .atom 1)])], .atom 3,
+                         .ns [(sk "init_args", .ns [(sk "dim", .none), (sk "k", .atom 2)])]])]
+    = [(sk "opts", .lst [.ns [(sk "init_args", .ns [(sk "k", .atom 1)])], .atom 3,
+                         .ns [(sk "init_args", .ns [(sk "dim", .atom 7), (sk "k", .atom 2)])]])] := rfl
+
+/-- a target that is the SECOND source of an earlier link is refused -/
+example : addLinks p0Ok (reqsOk ++ [⟨[key2 "g" "p"], [], key "b", .none⟩]) = .error .targetIsSource := rfl
+
+open Jap.Gen.LinksOrder in
+/-- `apply_parsing_links`: the order of the guards the model transcribes, and of the three steps taken per source -/
+theorem C15_code_apply_guards :
+    applyGuards = ["return if apply_config_skip or is_print_config_requested", "get_subcommand fail_no_subcommand=False",
+      "recurse into subcommand if subcommand in cfg", "return if no _links_group", "loop over links"] ∧
+    applySourceSteps = ["skip link if subclass source absent", "check source values", "read source"] := by decide
 
 end Jap.Props.C15
